@@ -5,15 +5,17 @@ import (
 	"math"
 
 	"github.com/creachadair/mds/mlink"
+	"verif/elem"
 	"verif/vk"
 )
 
 // ---------------------------------------------------------------------------
 // mlink.Queue
 
-type mqRun struct {
+type mqRun[T any] struct {
+	b      *bound[T]
 	c      SeqCase
-	q      *mlink.Queue[int]
+	q      *mlink.Queue[T]
 	ref    []int // front first
 	serial int
 	step   int
@@ -29,31 +31,31 @@ type mqRun struct {
 	maxLen        int
 }
 
-func (r *mqRun) errf(format string, args ...any) string {
-	return fmt.Sprintf("mlink.Queue %s (sub-step %d, ctor %s): %s", opCtx(r.step, r.c.Ops), r.sub, r.c.Ctor, fmt.Sprintf(format, args...))
+func (r *mqRun[T]) errf(format string, args ...any) string {
+	return fmt.Sprintf("mlink.Queue %s (sub-step %d, ctor %s): %s%s", opCtx(r.step, r.c.Ops), r.sub, r.c.Ctor, fmt.Sprintf(format, args...), r.b.note())
 }
 
-func (r *mqRun) checkPeek(n int) string {
+func (r *mqRun[T]) checkPeek(n int) string {
 	got, ok := r.q.Peek(n)
 	if n >= len(r.ref) {
 		if ok {
-			return r.errf("Peek(%d) = (%d, true) on a queue of %d elements, want ok = false", n, got, len(r.ref))
+			return r.errf("Peek(%d) = (%s, true) on a queue of %d elements, want ok = false", n, r.b.show(got), len(r.ref))
 		}
 		return ""
 	}
-	if !ok || got != r.ref[n] {
-		return r.errf("Peek(%d) = (%d, %v), want (%d, true) (reference %s)", n, got, ok, r.ref[n], brief(r.ref))
+	if !ok || !r.b.is(got, r.ref[n]) {
+		return r.errf("Peek(%d) = (%s, %v), want (%s, true) (reference %s)", n, r.b.show(got), ok, r.b.want(r.ref[n]), r.b.wants(r.ref))
 	}
 	return ""
 }
 
-func (r *mqRun) check() string {
+func (r *mqRun[T]) check() string {
 	n := len(r.ref)
 	if n > r.maxLen {
 		r.maxLen = n
 	}
 	if got := r.q.Len(); got != n {
-		return r.errf("Len = %d, reference has %d elements %s", got, n, brief(r.ref))
+		return r.errf("Len = %d, reference has %d elements %s", got, n, r.b.wants(r.ref))
 	}
 	if got := r.q.IsEmpty(); got != (n == 0) {
 		return r.errf("IsEmpty = %v, reference has %d elements", got, n)
@@ -62,13 +64,13 @@ func (r *mqRun) check() string {
 	if n > 0 {
 		wantFront = r.ref[0]
 	}
-	if got := r.q.Front(); got != wantFront {
-		return r.errf("Front = %d, want %d (reference %s)", got, wantFront, brief(r.ref))
+	if got := r.q.Front(); !r.b.is(got, wantFront) {
+		return r.errf("Front = %s, want %s (reference %s)", r.b.show(got), r.b.want(wantFront), r.b.wants(r.ref))
 	}
-	var got []int
-	r.q.Each(func(v int) bool { got = append(got, v); return len(got) < n+8 })
-	if !eqInts(got, r.ref) {
-		return r.errf("Each lists %s, reference %s", brief(got), brief(r.ref))
+	got := make([]T, 0, n)
+	r.q.Each(func(v T) bool { got = append(got, v); return len(got) < n+8 })
+	if !r.b.eq(got, r.ref) {
+		return r.errf("Each lists %s, reference %s", r.b.list(got), r.b.wants(r.ref))
 	}
 	for _, k := range []int{0, n - 1, n, n + 1} {
 		if k >= 0 {
@@ -80,9 +82,9 @@ func (r *mqRun) check() string {
 	return ""
 }
 
-func (r *mqRun) doAdd() string {
+func (r *mqRun[T]) doAdd() string {
 	r.serial++
-	r.q.Add(r.serial)
+	r.q.Add(r.b.in(r.serial))
 	r.ref = append(r.ref, r.serial)
 	if r.justEmptied {
 		r.addAfterEmpty++
@@ -94,18 +96,18 @@ func (r *mqRun) doAdd() string {
 	return r.check()
 }
 
-func (r *mqRun) doPop() string {
+func (r *mqRun[T]) doPop() string {
 	got, ok := r.q.Pop()
 	if len(r.ref) == 0 {
 		r.popEmpty++
 		if ok {
-			return r.errf("Pop on an empty queue = (%d, true), want ok = false", got)
+			return r.errf("Pop on an empty queue = (%s, true), want ok = false", r.b.show(got))
 		}
 	} else {
 		want := r.ref[0]
 		r.ref = r.ref[1:]
-		if !ok || got != want {
-			return r.errf("Pop = (%d, %v), want (%d, true); rest of the reference %s", got, ok, want, brief(r.ref))
+		if !ok || !r.b.is(got, want) {
+			return r.errf("Pop = (%s, %v), want (%s, true); rest of the reference %s", r.b.show(got), ok, r.b.want(want), r.b.wants(r.ref))
 		}
 		if len(r.ref) == 0 {
 			r.justEmptied = true
@@ -114,7 +116,7 @@ func (r *mqRun) doPop() string {
 	return r.check()
 }
 
-func (r *mqRun) apply(op Op) string {
+func (r *mqRun[T]) apply(op Op) string {
 	r.sub = 0
 	a := abs(op.A)
 	switch op.K {
@@ -140,10 +142,10 @@ func (r *mqRun) apply(op Op) string {
 			n = []int{math.MinInt, math.MinInt + 1, -1 << 32, -math.MaxInt}[a%4]
 		}
 		r.peekNeg++
-		var got int
+		var got T
 		var ok bool
 		if pv := vk.PanicValue(func() { got, ok = r.q.Peek(n) }); pv == nil {
-			return r.errf("Peek(%d) returned (%d, %v); the documentation says Peek panics if n < 0", n, got, ok)
+			return r.errf("Peek(%d) returned (%s, %v); the documentation says Peek panics if n < 0", n, r.b.show(got), ok)
 		}
 		return r.check()
 	case "each":
@@ -152,13 +154,13 @@ func (r *mqRun) apply(op Op) string {
 			return r.check()
 		}
 		j := a%n + 1
-		var got []int
-		r.q.Each(func(v int) bool { got = append(got, v); return len(got) < j })
+		var got []T
+		r.q.Each(func(v T) bool { got = append(got, v); return len(got) < j })
 		if len(got) != j {
 			return r.errf("Each made %d callbacks although the callback returned false at #%d", len(got), j)
 		}
-		if !eqInts(got, r.ref[:j]) {
-			return r.errf("Each (stopped at %d) lists %s, reference %s", j, brief(got), brief(r.ref))
+		if !r.b.eq(got, r.ref[:j]) {
+			return r.errf("Each (stopped at %d) lists %s, reference %s", j, r.b.list(got), r.b.wants(r.ref))
 		}
 		return ""
 	case "clear":
@@ -191,14 +193,36 @@ func (r *mqRun) apply(op Op) string {
 	return r.errf("VK-INFRA unknown op kind %q", op.K)
 }
 
+// runMQueue instantiates the interpreter with the case's element kind.
 func runMQueue(c SeqCase, o *vk.Obs) string {
-	r := &mqRun{c: c, step: -1}
+	elem.ResetPtr()
+	switch c.Elem {
+	case "", elem.Int:
+		return runMQueueOf(c, o, cmpBound(elem.IntKit()))
+	case elem.Str:
+		return runMQueueOf(c, o, cmpBound(elem.StrKit()))
+	case elem.I16:
+		return runMQueueOf(c, o, cmpBound(elem.I16Kit()))
+	case elem.Wide:
+		return runMQueueOf(c, o, cmpBound(elem.WideKit()))
+	case elem.Ptr:
+		return runMQueueOf(c, o, cmpBound(elem.PtrKit()))
+	case elem.Any:
+		return runMQueueOf(c, o, cmpBound(elem.AnyKit()))
+	case elem.Bytes:
+		return runMQueueOf(c, o, bytesBound())
+	}
+	return badKind(c.Elem)
+}
+
+func runMQueueOf[T any](c SeqCase, o *vk.Obs, b *bound[T]) string {
+	r := &mqRun[T]{b: b, c: c, step: -1}
 	switch c.Ctor {
 	case "zero":
-		var q mlink.Queue[int]
+		var q mlink.Queue[T]
 		r.q = &q
 	case "new":
-		r.q = mlink.NewQueue[int]()
+		r.q = mlink.NewQueue[T]()
 	default:
 		return r.errf("VK-INFRA unknown constructor %q", c.Ctor)
 	}
@@ -220,6 +244,7 @@ func runMQueue(c SeqCase, o *vk.Obs) string {
 		o.NonTrivial()
 	}
 	o.Class("ctor=" + c.Ctor)
+	o.Class("elem=" + kindName(c.Elem))
 	o.ClassIf(r.addAfterEmpty > 0, "add_after_pop_to_empty")
 	o.ClassIf(r.addAfterClear > 0, "add_after_clear_of_nonempty")
 	o.ClassIf(r.peekOut > 0, "peek_out_of_range")
